@@ -118,6 +118,11 @@ def is_path_ignored(
             _LOGGER.info("ignoring '%s' because it is a submodule", path)
             return True
 
+    else:
+        # Not a regular file, e.g. a named pipe or a socket.
+        _LOGGER.debug("skipping special file '%s'", path)
+        return True
+
     if vcs_strategy and vcs_strategy.is_ignored(path):
         return True
 
